@@ -167,6 +167,18 @@ theorem updateMin?_replace {a b v : TI} (h : C08.SameShape a b) (hu : TI.updateM
     have : ¬ a.tiers ≤ b.tiers := by simpa using hle
     exact ⟨h.2.1.symm, h.2.2.symm, h.1.symm, TT.le_of_lt (TT.not_le.mp this)⟩
 
+/-- `update_min` on two delays of one shape: keep (old ≤ new) or replace (new < old), nothing else -/
+theorem updateMin?_cases {a b : TI} (h : C08.SameShape a b) :
+    (TI.updateMin? (some a) b = some none ∧ a.tiers ≤ b.tiers) ∨
+    (TI.updateMin? (some a) b = some (some b) ∧ b.tiers < a.tiers) := by
+  simp only [TI.updateMin?, le?_sameShape h, Option.map_some]
+  by_cases hle : a.tiers ≤ b.tiers
+  · left
+    simp only [hle, decide_true, if_true, and_self]
+  · right
+    simp only [hle, decide_false, Bool.false_eq_true, if_false, true_and]
+    exact TT.not_le.mp hle
+
 /-! ### one relaxation, as cases -/
 
 /-- the body of the two inner loops for one connection `sd` into `mid` and one row entry `e` -/
